@@ -1014,7 +1014,9 @@ pub(crate) trait StylesheetParser<'a>: BaseParser + Sized {
                 kind: kind @ ('"' | '\''),
                 ..
             }) => kind,
-            Some(..) | None => unreachable!("Expected string."),
+            Some(..) | None => {
+                return Err(("Expected string.", self.toks_mut().span_from(start)).into())
+            }
         };
 
         let mut buffer = Interpolation::new();
